@@ -11,14 +11,14 @@ for m in metas:
     rows.append("| %s | %s | %s |" % (m["id"], m["what"].replace("|", "/"), "silent" if m["silent"] else fired))
 text = """### 0.8 Robustness probes: behaviour-preserving refactorings (what the checks do on code where the property still holds)
 
-The seeded changes measure detection. To measure the other side — *never raise an alarm on code where the property holds* — ten more
+The seeded changes measure detection. To measure the other side — *never raise an alarm on code where the property holds* — fifteen more
 sub-agents (property text + worktree only) were each asked for three realistic **behaviour-preserving** refactorings of the code their
 property is anchored in (extract / inline a helper, loop <-> iterator chain, `match` <-> `if let` / `let else`, merged match arms, local
 closures, code motion). Each agent compared the tool's outputs byte for byte before and after on hundreds to thousands of runs (shipped examples
 under all flag combinations plus hand-written and random inputs); I re-ran the pinned tests. The %d patches are kept in `probes/<id>/` and
 are negative controls (`R-<id>`) of the self-test.
 
-**First run: 28 of the 30 refactorings made at least one check fail** (almost all as template mismatches or fail-closed analysis gaps). That
+**First run: 28 of the first 30 refactorings (and 12 of the 15 written later for C10, C11, C14, C17, C20) made at least one check fail** (almost all as template mismatches or fail-closed analysis gaps). That
 is the honest weakness of this family of technique as I built it: the extracted templates are tied to the shape of the constructors.
 I then removed the causes that were generic rather than specific to one probe:
 
@@ -35,6 +35,18 @@ I then removed the causes that were generic rather than specific to one probe:
   evaluator, closures and loop bodies can be specialised on a concrete argument / element. gamma (C05), prepend_predicate (C05), the typed
   comparison printer (C06 / C09: 96 cases), val (C01) and the regularity tests (C08) are checked this way, so merged arms, nested matches on
   the connective, tuple matches and extracted per-case helpers do not matter.
+* **Decision trees instead of statement shapes** (`rules/leaves.py`). A flag or a result is evaluated symbolically and turned into its
+  paths (conjunction of atomic facts on *normalised subjects* -> value): `if !matches!(..) { ok = false }`, `ok &= helper(..)`,
+  `match r.map(|x| (x.status(), x)) { Ok((Ok(s), _)) => .. }`, `let .. else` and early `continue` are one tree. C10's verdict rule (the flag
+  survives an iteration only on Ok / Ok / Success(Theorem)), C20's extension table and C11's collector rule are stated on it.
+* **Recorded effects with canonical loop nests.** Calls of interest (`prove`, `send`, `execute`, `Vec::push`) are recorded with their
+  path condition and loop stack; `for x in L.map(f).flat_map(g)`, nested `for` loops and `for_each` closures normalise to one nest. C10's
+  once-per-problem rule and C20's single-pass / walk-order rules read those records.
+* **Small-model evaluation of accessors** (`rules/absval.py`): the `Files` accessors are evaluated on every combination of bucket lengths
+  against the role table, so `if is_empty()`, `match first()`, `or_else` chains and calls of one accessor from another are the same.
+* **Helpers grafted into HIR-level rules.** For the rules that walk the HIR rather than evaluate it, the body of a later-extracted helper
+  is attached to each of its call sites (`facts._graft_helpers`), `?`-propagation is followed through block tails and helper returns, and
+  field initialisers are followed through named locals (`hq.walk_through_locals`).
 * **Parenthesisation decided from path conditions.** The writes of an operand are found by their argument, and the (parent, child) row
   decides which write is reached; `a || b < c`, a three-way `cmp` match, locals and an extracted `fmt_operand` helper are all the same to it.
 
